@@ -58,12 +58,19 @@ class Policy:
         self.mean = spec.get('mean', 3)
         # pct: list of global step indices at which a switch is forced
         self.switch_at = sorted(spec.get('switch_at', []))
+        # writes: indices of write-points (line events that follow a line
+        # which stores into an attribute / subscript / global or calls a
+        # mutating method) at which a switch is forced
+        self.switch_at_w = set(tuple(x) for x in spec.get('switch_at_w', []))
         self.gstep = 0
 
     def next_segment(self, runnable, last):
         rng = self.rng
         if self.kind == 'sequential':
             return runnable[0], 1 << 60
+        if self.kind == 'writes':
+            others = [t for t in runnable if t != last] or runnable
+            return rng.choice(others), 1 << 60
         if self.kind == 'pct':
             # run one task until the next forced switch point
             others = [t for t in runnable if t != last] or runnable
@@ -82,7 +89,7 @@ class Policy:
 
 class Baton:
     def __init__(self, sched_spec=None, schedule=None, step_cap=2000000,
-                 tracer_files=None, on_switch=None):
+                 tracer_files=None, on_switch=None, write_lines=None):
         self.tasks = []
         self.schedule_in = None if schedule is None else [
             list(s) for s in schedule]
@@ -101,6 +108,9 @@ class Baton:
         self._code_cache = {}
         self.on_switch = on_switch  # callback(frm_task, to_task, baton)
         self.kinds = {}
+        self.write_lines = write_lines or frozenset()
+        self.wcount = 0
+        self.wsite = {}
 
     # -- task management -------------------------------------------------
     def add(self, fn):
@@ -157,7 +167,7 @@ class Baton:
                     raise SimAbort(self.aborted)
 
     # -- pre-emption point -----------------------------------------------
-    def point(self, kind='p'):
+    def point(self, kind='p', wp=False):
         me = getattr(_current, 'tid', None)
         if me is None or me != self.cur:
             return
@@ -167,6 +177,13 @@ class Baton:
         self.seg_steps += 1
         self.tasks[me].steps += 1
         self.quantum -= 1
+        if wp:
+            self.wcount += 1
+            n = self.wsite.get(wp, 0) + 1
+            self.wsite[wp] = n
+            if self.schedule_in is None and \
+                    (wp[0], wp[1], n) in self.policy.switch_at_w:
+                self.quantum = 0
         if self.total_steps > self.step_cap:
             self._abort('step cap %d exceeded' % self.step_cap)
             raise SimBudgetExceeded(self.aborted)
@@ -191,7 +208,12 @@ class Baton:
 
     def _local_trace(self, frame, event, arg):
         if event == 'line':
-            self.point('line')
+            wp = getattr(_current, 'after_write', None)
+            if self.write_lines:
+                site = (frame.f_code.co_filename, frame.f_lineno)
+                _current.after_write = site if site in self.write_lines \
+                    else None
+            self.point('line', wp)
         return self._local_trace
 
     # -- thread bodies ---------------------------------------------------
@@ -247,3 +269,98 @@ class Baton:
             if t.error is not None and not isinstance(t.error, SimAbort):
                 raise HarnessError('task %d: %r' % (t.tid, t.error))
         return [t.result for t in self.tasks]
+
+
+# ---------------------------------------------------------------------------
+# static detection of lines that may write shared state
+# ---------------------------------------------------------------------------
+
+MUTATORS = frozenset(['append', 'add', 'update', 'pop', 'setdefault', 'insert',
+                      'extend', 'discard', 'clear', 'remove', 'popleft',
+                      'appendleft', 'register_function', 'delete_function',
+                      'sort', 'reverse', 'rotate'])
+
+
+def find_write_lines(root):
+    """(filename, lineno) of the last line of every statement under `root`
+    that stores into an attribute, a subscript or a declared global, deletes
+    one, or calls a mutating method."""
+    import ast
+    import os
+    out = set()
+    for d, _, files in os.walk(root):
+        if os.sep + 'tests' in d:
+            continue
+        for fn in files:
+            if not fn.endswith('.py'):
+                continue
+            path = os.path.join(d, fn)
+            try:
+                tree = ast.parse(open(path).read())
+            except Exception:
+                continue
+            for fnode in ast.walk(tree):
+                if not isinstance(fnode, (ast.FunctionDef, ast.Lambda)):
+                    continue
+                globs = set()
+                for n in ast.walk(fnode):
+                    if isinstance(n, (ast.Global, ast.Nonlocal)):
+                        globs.update(n.names)
+                for n in ast.walk(fnode):
+                    hit = False
+                    if isinstance(n, (ast.Assign, ast.AugAssign, ast.AnnAssign,
+                                      ast.Delete)):
+                        targets = n.targets if isinstance(
+                            n, (ast.Assign, ast.Delete)) else [n.target]
+                        for t in targets:
+                            for x in ast.walk(t):
+                                if isinstance(x, (ast.Attribute, ast.Subscript)):
+                                    hit = True
+                                if isinstance(x, ast.Name) and x.id in globs:
+                                    hit = True
+                    elif isinstance(n, ast.Expr) and isinstance(n.value, ast.Call):
+                        f = n.value.func
+                        if isinstance(f, ast.Attribute) and f.attr in MUTATORS:
+                            hit = True
+                    if hit:
+                        out.add((path, getattr(n, 'end_lineno', n.lineno)))
+    return frozenset(out)
+
+
+class LineCounter:
+    """Counts line events and write-points of yaql frames in the current
+    thread (used to size PCT / write-point schedules)."""
+
+    def __init__(self, prefixes, write_lines):
+        self.prefixes = tuple(prefixes)
+        self.write_lines = write_lines
+        self.lines = 0
+        self.wpoints = 0
+        self.sites = {}
+        self._after = None
+        self._cache = {}
+
+    def _global(self, frame, event, arg):
+        code = frame.f_code
+        ok = self._cache.get(code)
+        if ok is None:
+            ok = self._cache[code] = code.co_filename.startswith(self.prefixes)
+        return self._local if ok else None
+
+    def _local(self, frame, event, arg):
+        if event == 'line':
+            self.lines += 1
+            if self._after is not None:
+                self.wpoints += 1
+                self.sites[self._after] = self.sites.get(self._after, 0) + 1
+            site = (frame.f_code.co_filename, frame.f_lineno)
+            self._after = site if site in self.write_lines else None
+        return self._local
+
+    def __enter__(self):
+        self._old = sys.gettrace()
+        sys.settrace(self._global)
+        return self
+
+    def __exit__(self, *a):
+        sys.settrace(self._old)
